@@ -41,6 +41,7 @@ var ErrIllegalArguments = errors.New("multiapp: illegal arguments")
 var ErrInvalidOptions = fmt.Errorf("%w: invalid options", ErrIllegalArguments)
 var ErrAlreadyClosed = errors.New("multiapp: already closed")
 var ErrReadOnly = errors.New("multiapp: read-only mode")
+var ErrCorruptedMetadata = errors.New("multiapp: corrupted metadata")
 
 const (
 	metaFileSize    = "FILE_SIZE"
@@ -200,7 +201,11 @@ func OpenWithHooks(path string, hooks MultiFileAppendableHooks, opts *Options) (
 		return nil, err
 	}
 
-	fileSize, _ := appendable.NewMetadata(currApp.Metadata()).GetInt(metaFileSize)
+	fileSize, ok := appendable.NewMetadata(currApp.Metadata()).GetInt(metaFileSize)
+	if !ok || fileSize <= 0 {
+		currApp.Close()
+		return nil, ErrCorruptedMetadata
+	}
 
 	pCtx, pCancel := context.WithCancel(context.Background())
 	return &MultiFileAppendable{
